@@ -92,6 +92,22 @@ def run(ctx):
         ctx.issue("harness-build", "the harness no longer builds against the working tree: " + herr[-400:])
         return C.finish(ctx)
     reqs = gen(ctx)
+    # histories of more than 2^16 values (implementation only — the model appends to a list, quadratic at this size; same oracle):
+    # tokens are indices, and index 65536 + k is not index k
+    big = []
+    for n in ((66000,) if ctx.tier == "quick" else (65535, 65536, 65537, 66000, 140000)):
+        ops = []
+        for i in range(n):
+            if i % 997 == 5:
+                ops.append(f"f:{i + 1}:{1000 + 2 * (i // 2)}")          # equal to the value stored at position i // 2 (or new if that was a fetch)
+            elif i % 4999 == 7:
+                ops.append(f"a:{i + 1}:{1000 + 2 * (i // 3)}")          # an appended duplicate of an earlier value
+            else:
+                ops.append(f"a:{i + 1}:{1000 + 2 * i}")
+        ops += [f"f:{n + 1}:{1000 + 2 * (n - 3)}", f"f:{n + 2}:{1000 + 2 * 8}", f"a:{n + 3}:0", f"f:{n + 4}:{1000 + 2 * 65540}"]
+        big.append("store " + " ".join(ops))
+    found_big = C.oracle_search(ctx, big, oracle, "store-big")
+    ctx.oblige(f"oracle:histories of more than 2^16 values ({len(big)} histories, implementation only)", not found_big)
     impl, model = C.differential(ctx, reqs, "store", oracle=oracle)
     for r, a in zip(reqs, impl):
         if " f:" in r and len(r) > 12:
